@@ -12,16 +12,34 @@ Open Scope list_scope.
 Open Scope Z_scope.
 
 (* ------------------------------------------------------------------ positions *)
-Lemma drop_skipn off (l : list Z) : drop off l = skipn (Z.to_nat off) l.
-Proof.
-  unfold drop. destruct (Z.leb_spec (zlen l) off) as [H|H]; [|reflexivity].
-  symmetry. apply skipn_all2. unfold zlen in H. lia.
-Qed.
-
 Lemma skipn_skipn' {A} (a b : nat) (l : list A) : skipn a (skipn b l) = skipn (b + a) l.
 Proof.
   revert l. induction b as [|b IH]; intros l; [reflexivity|].
   destruct l as [|x l]; [destruct a; reflexivity|]. cbn [skipn Nat.add]. apply IH.
+Qed.
+
+Lemma skipn_tail {A} n : forall (l : list A),
+  match skipn n l with [] => [] | _ :: t => t end = skipn (S n) l.
+Proof.
+  induction n as [|n IH]; intros l.
+  - destruct l; reflexivity.
+  - destruct l as [|x l]; [reflexivity|]. cbn [skipn]. rewrite IH. reflexivity.
+Qed.
+
+Lemma dropP_skipn {A} p : forall (l : list A), dropP p l = skipn (Pos.to_nat p) l.
+Proof.
+  induction p as [q IH|q IH|]; intros l.
+  - destruct l as [|x t]; [cbn [dropP]; rewrite skipn_nil; reflexivity|].
+    cbn [dropP]. rewrite !IH, skipn_skipn', skipn_tail. f_equal. lia.
+  - destruct l as [|x t]; [cbn [dropP]; rewrite skipn_nil; reflexivity|].
+    cbn [dropP]. rewrite !IH, skipn_skipn'. f_equal. lia.
+  - destruct l; reflexivity.
+Qed.
+
+Lemma drop_skipn off (l : list Z) : drop off l = skipn (Z.to_nat off) l.
+Proof.
+  unfold drop. destruct off as [|p|p]; [reflexivity| |reflexivity].
+  rewrite dropP_skipn. reflexivity.
 Qed.
 
 Lemma prefix_eqb_app bs : forall l, prefix_eqb bs l = true -> exists t, l = bs ++ t.
